@@ -473,6 +473,14 @@ class Walker:
             if lp is not None and not obj.eom_config.custom_buffer_time:
                 need = max(need, lp[2] + min(cv0.fall(lp), int(lp[0].fall_time(obj, in_eom_mode=True)),
                                              int(lp[0].fall_time(obj, in_eom_mode=False))))
+            # second admissible reading (as for align / get_duration, §9 #3): only the most
+            # recent pulse slot - here possibly an idle EOM slot, a zero-amplitude "pulse" -
+            # has its fall time counted
+            lps = cv0.last_pulse()
+            if lp is not None and lps is not None and lps is not lp and not obj.eom_config.custom_buffer_time:
+                need = min(need, max(cv0.end, lps[2] + min(
+                    cv0.fall(lps), int(lps[0].fall_time(obj, in_eom_mode=True)),
+                    int(lps[0].fall_time(obj, in_eom_mode=False)))))
             if obj.eom_config.custom_buffer_time:
                 need2 = cv0.end + cv0.adj(int(obj.eom_config.custom_buffer_time))
                 if cv1.end != need2:
